@@ -593,6 +593,41 @@ pub fn straggler(ctx: &Ctx) -> Stats {
     st
 }
 
+/// deterministic lag: the worker that takes one chosen record is held for a few hundred milliseconds at the `took`
+/// hook (no lock held) while the others run through all the remaining records — thousands of records of lag on
+/// demand, independent of machine load
+pub fn lag(ctx: &Ctx) -> Stats {
+    let n = ctx.n(4, 24);
+    let mut st = Stats::new();
+    for idx in 0..n {
+        if ctx.expired() {
+            st.truncated = true;
+            break;
+        }
+        let mut rng = Rng::keyed(ctx.seed, "c10.lag", idx);
+        let m = rng.usize(5, 9);
+        let w = m + rng.usize(2, 8);
+        let nrec = rng.usize(6000, 11_000);
+        let recs: Vec<Rec> = (0..nrec).map(|i| Rec { id: format!("g{}", i), desc: None, seq: gen_seq(&mut rng, SeqClass::Uniform, 25 + i % 40, true) }).collect();
+        let sc = Scratch::new(ctx, "c10g");
+        let inp = sc.write("in.fa", &ser::to_fasta(&recs, &SerOpts::plain()));
+        let mode = if idx % 4 == 3 { MinMode::M2s } else { MinMode::S2m };
+        let threads = [2usize, 3, 8, 4][((idx / 2) % 4) as usize];
+        let victim = [0u64, rng.range(2, 200), 1, (nrec / 3) as u64][(idx % 4) as usize];
+        let (took, exit) = if mode == MinMode::S2m { ("s2m.took", "s2m.exit") } else { ("m2s.took", "m2s.exit") };
+        let ctl = Controller::new(Mode::Straggle { record: victim, hold_ms: 350 }, threads, took, exit, vec![]);
+        st.case(true, mix(idx) ^ mix(nrec as u64));
+        st.class(&format!("{:?} threads={} held record {}", mode, threads, if victim < 2 { victim.to_string() } else { "later".into() }));
+        let res = run_min(mode, w, m, &inp, &sc.path("out.txt"), threads, Some(&ctl));
+        let held = res.2.as_ref().map_or(false, |t| t.events.iter().any(|e| e.site == took && e.args[0] == victim));
+        if !held {
+            st.inconclusive("the hook of the chosen record was never reached".into());
+        }
+        judge(&mut st, mode, &res, &recs, w, m, threads, "lag");
+    }
+    st
+}
+
 pub fn large(ctx: &Ctx) -> Stats {
     let n = ctx.n(4, 30);
     par_cases(ctx, n, |idx, st| {
